@@ -15,8 +15,12 @@ def body(led):
     A.check_layout(led)
     A.check_matrix(led, 'calc_k0', ['fk0'], with_conn=True)
     A.check_matrix(led, 'calc_kG0', ['fkG0'])
+    A.check_matrix(led, 'calc_k0', ['fk0'], with_conn=True, preload_panel=0)          # a constant pre-load on one panel only
+    A.check_matrix(led, 'calc_kT', ['fkL_num', 'fkG_num'], with_conn=True, state=True, preload_panel=1)
     A.check_matrix(led, 'calc_kM', ['fkM'])
     A.check_matrix(led, 'calc_kT', ['fkL_num', 'fkG_num'], with_conn=True, state=True)
+    A.check_matrix(led, 'calc_k0', ['fkL_num'], with_conn=True, state=True)         # kL(c): the constitutive matrix about a state
+    A.check_matrix(led, 'calc_kG0', ['fkG_num'], state=True)                        # kG(c)
     A.check_matrix(led, 'calc_fint', ['calc_fint'], with_conn=True, state=True)
     A.check_fext(led)
     from . import c13_bay
